@@ -1,2 +1,3 @@
 import OsuModel.FileCache
 import OsuModel.TimeIntegration
+import OsuModel.TimeConv
